@@ -30,7 +30,7 @@ func TestC13Golden(t *testing.T) {
 		t.Fatalf("[setup failed] golden fixture missing: %v", err)
 	}
 	wantLines := strings.Split(strings.TrimSpace(string(want)), "\n")
-	rapid.Check(t, func(rt *rapid.T) {
+	check(t, func(rt *rapid.T) {
 		dir := tempDir("c13-golden-")
 		defer removeAll(dir)
 		if out, err := exec.Command("cp", "-r", filepath.Join(fixturesDir(), "badger-golden", "db"), filepath.Join(dir, "db")).CombinedOutput(); err != nil {
